@@ -2132,6 +2132,302 @@ def replay_fail_rule_listed(a):
     real = [o for o in out if "problem" not in o]
     return {"reproduced": bool(real), "mismatches": out[:4], "data": data}
 
+# --------------------------------------------------------------------------------------------------
+# C07: the verdict does not depend on output format / verbosity / summary flags / entry point (wiring)
+# --------------------------------------------------------------------------------------------------
+def flags_verdict_wiring(a):
+    """evaluate_against_data_input with verbose, print_json, the summary selection and the output format ALL symbolic"""
+    df = struct_fields(a.src, "commands/validate.rs", "DataFile")
+    ex = a.exec(r"(?:commands::validate::)?evaluate_against_data_input",
+                {"root_scope": m_scope, "eval_rules_file": mirexec.m_result_status, "is_empty": lambda ex, av: ex.havoc("bool"),
+                 "report_eval": mirexec.m_result_unit, "next": mirexec.m_iter_next, "into_iter": mirexec.m_new_iter,
+                 "iter": mirexec.m_new_iter, RC_NEW: mirexec.m_identity, "from": lambda ex, av: ex.opq(),
+                 "reset_recorder": lambda ex, av: ex.opq(), "extract": lambda ex, av: ex.opq(),
+                 "print_verbose_tree": lambda ex, av: ("unit",), "to_string_pretty": m_result_opq,
+                 "write_fmt": mirexec.m_result_unit, "expect": lambda ex, av: ("unit",)},
+                init_env={"_3": ("enum", "Option", "0", {})}, log=("print_verbose_tree", "to_string_pretty"), unroll=2, max_paths=80000)
+    a.fns.append("commands::validate::evaluate_against_data_input (all flag values)")
+    files, fmt = ex.arg_env["_4"], ex.arg_env["_2"]
+    P, F = a.P, a.F
+    bad, n = [], 0
+    for p in ex.paths:
+        rtag, rst = ret_ok_status(p)
+        if p.outcome != "return" or rtag is None:
+            bad.append(pc_term(p.pc))
+            continue
+        evals, reps = calls(p, "eval_rules_file"), calls(p, "report_eval")
+        rr, xs = calls(p, "reset_recorder"), calls(p, "extract")
+        probs = []
+        if len(reps) > len(evals) or len(reps) < len(evals) - 1:
+            probs.append("reports and evaluations do not pair up")
+        for i, rp in enumerate(reps):
+            ev = evals[i]
+            n += 1
+            args = rp[2][1:] if len(rp[2]) >= 9 else rp[2]          # receiver first
+            st_arg, rec_arg = args[1], args[2]
+            if not (st_arg[0] == "enum" and ev[3][0] == "enum" and st_arg[2] == ev[3][3]["Ok"][2]):
+                probs.append("report_eval does not receive this evaluation's status")
+            ok_rec = (i < len(rr) and i < len(xs) and same(rr[i][2][0], ev[2][1]) and same(xs[i][2][0], rr[i][3]) and same(rec_arg, xs[i][3]))
+            if not ok_rec:
+                probs.append("report_eval does not receive the record tree of this evaluation's scope")
+            if not any(same(x, fmt) for x in args):
+                probs.append("the output format handed to the reporter is not the requested one")
+        for e in calls(p, "print_verbose_tree") + calls(p, "to_string_pretty"):
+            if not any(same(e[2][0], x[3]) for x in xs):
+                probs.append("verbose / print-json renders something other than an evaluation's record tree")
+        sts = [e[3][3]["Ok"][2] for e in evals if e[3][0] == "enum"]
+        anyfail = "(or false " + " ".join(f"(= {t} {F})" for t in sts) + ")"
+        anyerr = "(or false " + " ".join(f"(= {e[3][2]} 1)" for e in evals + reps + calls(p, "to_string_pretty") if e[3][0] == "enum") + ")"
+        good = f"(ite (= {rtag} 0) (and (not {anyerr}) (= {rst} (ite {anyfail} {F} {P}))) {anyerr})" if rst is not None else f"(and (= {rtag} 1) {anyerr})"
+        bad.append(f"(and {pc_term(p.pc)} (not {'false' if probs else good}))")
+    c = a.discharge("evaluate_against_data_input/flags-do-not-touch-the-verdict", ex, bad,
+                    f"plain validate, <= 2 documents, verbose / print_json / summary selection / output format symbolic ({n} reports over all "
+                    "paths): whatever the flags, every document is evaluated once and its reporter receives exactly that evaluation's status, "
+                    "the record tree of that evaluation's scope and the requested format; --verbose and --print-json render that same tree; "
+                    "the returned status is FAIL iff some evaluation was FAIL, else PASS; an error only from a callee")
+    if c:
+        c["replay"] = replay_formats_agree(a)
+        c["reproduced"] = c["replay"].get("reproduced", False)
+        a.candidates.append(c)
+
+
+def replay_formats_agree(a):
+    """the same rules and data through every rendering / flag combination: exit code, per-rule PASS / FAIL / SKIP sets and
+    file status must coincide (the structured JSON report is the reference)"""
+    import os, shutil, subprocess, tempfile
+    exe = a.cli()
+    if not exe:
+        return {"reproduced": False, "note": "native build failed"}
+    rules = ("rule p1 {\n  a == 1\n}\nrule f1 {\n  a == 2 <<m1>>\n}\nrule s1 when a == 2 {\n  a == 1\n}\n"
+             "rule f2 {\n  b exists\n  a == 1\n}\nrule p2 when p1 {\n  a >= 1\n}\n")
+    variants = {"all-pass": "rule p1 {\n  a == 1\n}\nrule p2 {\n  a >= 1\n}\nrule s1 when a == 2 {\n  a == 1\n}\n",
+                "all-skip": "rule s1 when a == 2 {\n  a == 1\n}\nrule s2 when a == 3 {\n  a == 1\n}\n", "mixed": rules}
+    data = '{"a":\n 1}\n'
+    d = tempfile.mkdtemp(prefix="cfnverif_replay_")
+    env = dict(os.environ)
+    env["RUST_BACKTRACE"] = "0"
+    out, tried = [], []
+    try:
+        open(os.path.join(d, "d.json"), "w").write(data)
+        for label, rtext in variants.items():
+            open(os.path.join(d, "r.guard"), "w").write(rtext)
+
+            def run(args, stdin=None):
+                pr = subprocess.run([exe] + args, cwd=d, capture_output=True, text=True, env=env, timeout=120, input=stdin)
+                return pr.returncode, pr.stdout
+            rc0, o0 = run(["validate", "-r", "r.guard", "-d", "d.json", "--structured", "-o", "json", "--show-summary", "none"])
+            try:
+                ref = json.loads(o0)[0]
+            except Exception:
+                tried.append({"rules": label, "problem": "reference run gave no report", "exit": rc0})
+                continue
+            sets = {"PASS": set(ref.get("compliant", [])), "SKIP": set(ref.get("not_applicable", [])),
+                    "FAIL": {x["Rule"]["name"] for x in ref.get("not_compliant", []) if "Rule" in x}}
+
+            def note(what, ok, **kw):
+                tried.append({"rules": label, "run": what, "ok": ok})
+                if not ok:
+                    out.append(dict({"rules_file": rtext, "run": what, "reference": {k: sorted(v) for k, v in sets.items()}, "reference_exit": rc0}, **kw))
+            # plain JSON / YAML, with every flag combination
+            for extra in ([], ["--verbose"], ["--print-json"], ["--verbose", "--print-json"]):
+                for summ in ("none", "all", "pass,fail,skip", "fail"):
+                    rc, o = run(["validate", "-r", "r.guard", "-d", "d.json", "-o", "json", "--show-summary", summ] + extra)
+                    try:
+                        i = o.index("{\n  \"name\"")
+                        rep = json.JSONDecoder().raw_decode(o[i:])[0]
+                        got = {"PASS": set(rep.get("compliant", [])), "SKIP": set(rep.get("not_applicable", [])),
+                               "FAIL": {x["Rule"]["name"] for x in rep.get("not_compliant", []) if "Rule" in x}}
+                        ok = rc == rc0 and got == sets and rep.get("status") == ref.get("status")
+                    except Exception as e:
+                        ok, got = False, f"no JSON report in output ({e})"
+                    note(f"validate -o json --show-summary {summ} {' '.join(extra)}", ok, exit=rc, got=str(got)[:300])
+            # console summary table
+            rc, o = run(["validate", "-r", "r.guard", "-d", "d.json", "--show-summary", "all"])
+            got = {"PASS": set(), "FAIL": set(), "SKIP": set()}
+            for line in o.splitlines():
+                m = re.match(r"^r\.guard/(\w+)\s+(PASS|FAIL|SKIP)\s*$", line)
+                if m:
+                    got[m.group(2)].add(m.group(1))
+            note("validate --show-summary all (console table)", rc == rc0 and got == sets, exit=rc, got={k: sorted(v) for k, v in got.items()})
+            # data on stdin and as payload
+            rc, o = run(["validate", "-r", "r.guard", "--structured", "-o", "json", "--show-summary", "none"], stdin=data)
+            try:
+                rep = json.loads(o)[0]
+                ok = rc == rc0 and set(rep.get("compliant", [])) == sets["PASS"] and set(rep.get("not_applicable", [])) == sets["SKIP"] and rep.get("status") == ref.get("status")
+            except Exception:
+                ok = False
+            note("validate --structured, data on stdin", ok, exit=rc)
+            payload = json.dumps({"rules": [rtext], "data": [data]})
+            rc, o = run(["validate", "--payload", "--structured", "-o", "json", "--show-summary", "none"], stdin=payload)
+            try:
+                rep = json.loads(o)[0]
+                ok = rc == rc0 and set(rep.get("compliant", [])) == sets["PASS"] and set(rep.get("not_applicable", [])) == sets["SKIP"] and rep.get("status") == ref.get("status")
+            except Exception:
+                ok = False
+            note("validate --payload --structured", ok, exit=rc)
+            # JUnit and SARIF of the structured reporter: exit code and failing rule names
+            rc, o = run(["validate", "-r", "r.guard", "-d", "d.json", "--structured", "-o", "junit", "--show-summary", "none"])
+            # one <testcase> per rules file: failure iff the file status is FAIL, status="skip" iff SKIP, plain otherwise
+            mark = "FAIL" if "<failure" in o else ("SKIP" if 'status="skip"' in o else "PASS")
+            note("validate --structured -o junit", rc == rc0 and mark == ref.get("status") and o.count("<testcase") == 1, exit=rc, mark=mark)
+            rc, o = run(["validate", "-r", "r.guard", "-d", "d.json", "--structured", "-o", "sarif", "--show-summary", "none"])
+            try:
+                sar = json.loads(o)
+                results = sar["runs"][0]["results"]
+                nchecks = sum(len(x["Rule"].get("checks", [])) for x in ref.get("not_compliant", []) if "Rule" in x)
+                ok = rc == rc0 and len(results) == nchecks
+            except Exception as e:
+                ok, results = False, str(e)
+            note("validate --structured -o sarif (one result per failing check)", ok, exit=rc)
+        real = [o_ for o_ in out]
+        return {"reproduced": bool(real), "mismatches": real[:3], "tried": tried,
+                "note": "; ".join(t["problem"] for t in tried if "problem" in t) or None}
+    finally:
+        shutil.rmtree(d, ignore_errors=True)
+
+
+REPORT_MODELS = None
+
+
+def _report_models():
+    return {"simplified_json_from_root": m_result_opq, "to_writer": mirexec.m_result_unit, "to_writer_pretty": mirexec.m_result_unit,
+            "single_line": m_result_opq, "report_eval": mirexec.m_result_unit, "report_from_events": mirexec.m_result_unit,
+            "root": mirexec.m_option, "at": m_result_opq, "map_or": m_result_opq,
+            "is_ok": lambda ex, av: ("bool", f"(= {av[0][2]} 0)") if av and av[0][0] == "enum" else ex.havoc("bool"),
+            "next": mirexec.m_iter_next, "into_iter": mirexec.m_new_iter, "iter": mirexec.m_new_iter}
+
+
+def reporter_chain(a):
+    """the console reporter chain (SummaryTable -> CfnAware -> TfAware -> GenericSummary): every link hands the verdict on
+    unchanged and renders from the same record tree with the same report builder as the structured reporter"""
+    ARGN = {"write": "_2", "writer": "_2", "status": "_3", "root_record": "_4", "rules_file": "_5", "data_file": "_6",
+            "data_file_bytes": "_7", "data": "_8", "output_type": "_9"}
+    links = [("cfn", r"cfn::<impl at guard/src/commands/reporters/validate/cfn\.rs:\d+:\d+: \d+:\d+>::report_eval"),
+             ("tf", r"tf::<impl at guard/src/commands/reporters/validate/tf\.rs:\d+:\d+: \d+:\d+>::report_eval"),
+             ("generic_summary", r"generic_summary::<impl at guard/src/commands/reporters/validate/generic_summary\.rs:\d+:\d+: \d+:\d+>::report_eval"),
+             ("summary_table", r"summary_table::<impl at guard/src/commands/reporters/validate/summary_table\.rs:\d+:\d+: \d+:\d+>::report_eval")]
+    RT = enum_variants(a.src, "rules/mod.rs", "RecordType")
+    ER = struct_fields(a.src, "rules/eval_context.rs", "EventRecord")
+    NS = struct_fields(a.src, "rules/mod.rs", "NamedStatus")
+    for label, rx in links:
+        ex = a.exec(rx, _report_models(), log=("insert", "bold", "print_summary", "colored_string", "retain"), unroll=2, max_paths=60000)
+        a.fns.append(f"commands::reporters::validate::{label}::report_eval")
+        inc = [ex.arg_env[f"_{i}"] for i in range(2, 10)]
+        bad, ndel = [], 0
+        hdr_map = {}
+        for p in ex.paths:
+            evs = [e for e in p.events if e[0] == "call"]
+            for i, e in enumerate(evs):
+                if e[1] == "bold" and e[2] and e[2][0][0] == "str":
+                    nxt = [x for x in evs[i + 1:] if x[1] == "print_summary"]
+                    if nxt and len(nxt[0][2]) >= 4:
+                        hdr_map.setdefault(e[2][0][1], set()).add(str(nxt[0][2][3]))
+        want_of = {}
+        if label == "summary_table":
+            for hdr, st in (("PASS rules", a.P), ("FAILED rules", a.F), ("SKIP rules", a.S)):
+                ms = hdr_map.get(hdr, set())
+                if len(ms) == 1:
+                    want_of[next(iter(ms))] = st
+        for p in ex.paths:
+            probs = []
+            evs = [e for e in p.events if e[0] == "call"]
+            sj = [e for e in evs if e[1] == "simplified_json_from_root"]
+            for e in sj:
+                if not same(e[2][0], inc[2]):
+                    probs.append("the report is built from something other than the record tree received")
+            for e in evs:
+                if e[1] in ("to_writer", "to_writer_pretty"):
+                    if not (same(e[2][0], inc[0]) and sj and sj[-1][3][0] == "enum" and same(e[2][1], sj[-1][3][3]["Ok"])):
+                        probs.append("the serialiser does not receive the report built from the record tree")
+                if e[1] == "report_from_events" and not same(e[2][0], inc[2]):
+                    probs.append("the single-line summary is not rendered from the record tree received")
+                if e[1] == "single_line" and not (sj and sj[-1][3][0] == "enum" and any(same(x, sj[-1][3][3]["Ok"]) for x in e[2])):
+                    probs.append("the single-line renderer does not receive the report built from the record tree")
+                if e[1] == "report_eval":
+                    ndel += 1
+                    got = e[2][1:]
+                    if len(got) != 8 or any(str(g) != str(w) for g, w in zip(got, inc)):
+                        probs.append("delegation changes an argument (status / record tree / names / format)")
+                if e[1] == "map_or" and len(e[2]) == 3 and e[2][2][0] == "struct":
+                    ndel += 1
+                    cap = e[2][2][2]
+                    for k in ("status", "root_record", "output_type"):
+                        if k not in cap:
+                            probs.append(f"delegating closure does not capture {k}")
+                    for k, v in cap.items():
+                        if k in ARGN and str(v) != str(ex.arg_env[ARGN[k]]):
+                            probs.append(f"delegating closure captures a different {k}")
+                if e[1] == "colored_string" and e[2] and e[2][0][0] == "enum":
+                    some = e[2][0][3].get("Some")
+                    if some is not None and str(some) != str(inc[1]):
+                        probs.append("the status line shows something other than the status received")
+            parts = []
+            if label == "summary_table":
+                if len(want_of) != 3:
+                    probs.append("the three summary maps could not be identified from the headers they are printed under")
+                its = iterations(ex, p)
+                it_idx = {i: k for k, _el, _t, i in its}
+                cur, per = None, {}
+                for i, e in enumerate(p.events):
+                    if i in it_idx:
+                        cur = it_idx[i]
+                    if e[0] == "call" and e[1] == "insert":
+                        per.setdefault(cur, []).append(e)
+                for k, el, tag, _i in its:
+                    if el is None:
+                        continue
+                    cont = field(ex, el, ER.index("container"), "Option")
+                    some = payload(ex, cont, "Some")
+                    ns = payload(ex, some, "RuleCheck")
+                    isrule = f"(and (= {tag} 1) (= {disc(ex, cont)} 1) (= {disc(ex, some)} {RT.index('RuleCheck')}))"
+                    st = field(ex, ns, NS.index("status"), "rules::Status")
+                    nm = field(ex, ns, NS.index("name"), "&str")
+                    ins = per.get(k, [])
+                    if not ins:
+                        parts.append(f"(not {isrule})")
+                    elif len(ins) == 1 and str(ins[0][2][0]) in want_of and same(ins[0][2][1], nm):
+                        parts.append(f"(and {isrule} (= {st[2]} {want_of[str(ins[0][2][0])]}))")
+                    else:
+                        parts.append("false")
+                # on every path that returns Ok the next reporter was called
+                r = p.ret
+                if p.outcome == "return" and r and r[0] == "enum" and not [e for e in evs if e[1] == "report_eval"]:
+                    parts.append(f"(= {r[2]} 1)")
+            good = "(and true " + " ".join(parts) + ")"
+            bad.append(f"(and {pc_term(p.pc)} (not {'false' if probs else good}))")
+        c = a.discharge(f"reporters/{label}/verdict-passed-on", ex, bad,
+                        f"{label}::report_eval ({ndel} delegations over all paths): reports are built by simplified_json_from_root from the "
+                        "record tree received and that report is what gets serialised / rendered; a delegation to the next reporter passes "
+                        "writer, status, record tree, names and format unchanged"
+                        + ("; every RuleCheck child is filed under the header of its own status with its own name, nothing else is filed, "
+                           "the status line shows the status received and the next reporter is always called" if label == "summary_table" else ""))
+        if c:
+            c["replay"] = replay_formats_agree(a)
+            c["reproduced"] = c["replay"].get("reproduced", False)
+            a.candidates.append(c)
+    # the delegating closures themselves: captured values are passed on positionally
+    for label, rx in links[:2]:
+        k = 0
+        while True:
+            try:
+                ex = a.exec(rx + r"::\{closure#" + str(k) + r"\}", _report_models(), unroll=1, max_paths=2000)
+            except Untranslatable:
+                break
+            env = ex.arg_env["_1"]
+            bad = []
+            for p in ex.paths:
+                dl = [e for e in p.events if e[0] == "call" and e[1] == "report_eval"]
+                ok = (len(dl) == 1 and len(dl[0][2]) == 9 and same(dl[0][2][0], ex.arg_env["_2"])
+                      and all(str(dl[0][2][1 + i]) == str(field(ex, env, i, "?")) or
+                              (dl[0][2][1 + i][0] == "enum" and field(ex, env, i, "rules::Status")[0] == "enum"
+                               and dl[0][2][1 + i][2] == field(ex, env, i, "rules::Status")[2]) for i in range(8)))
+                if not ok:
+                    bad.append(pc_term(p.pc))
+            a.discharge(f"reporters/{label}/closure#{k}/captures-in-order", ex, bad,
+                        f"{label}::report_eval::{{closure#{k}}}: calls next.report_eval once with its eight captured values in capture order")
+            k += 1
+
+
 
 SITES = {
     "C06": [structured_report, structured_parse_closure, junit_exit_code, junit_test_case, junit_report, validate_execute_step, test_generic_report],
